@@ -99,6 +99,47 @@ class UnitDomain(EffectDomain):
                 return [(TOP, self.with_log(store, ("insert", repr(e.field(0)), repr(e.field(1)), vals[1])))]
         if name.endswith("BTreeMap::<K, V, A>::insert") and len(vals) == 3:
             return [(TOP, self.with_log(store, ("insert", repr(a), repr(vals[1]), vals[2])))]
+        # the same map operations without the entry API
+        if (name.endswith("BTreeMap::<K, V, A>::get_mut") or name.endswith("BTreeMap::<K, V, A>::get")) and len(vals) == 2 and isinstance(a, (Sym, T)):
+            key = vals[1]
+            cell = ("cell", repr(a), repr(key))
+            idx = store.get(("cells",), ())
+            s2 = dict(store)
+            if cell not in idx:
+                idx = idx + (cell,)
+                s2[("cells",)] = idx
+                s2[(0, 700 + idx.index(cell))] = Agg("adt", "compound::State", 0, "State",
+                                                      (Sym("stored(%s,%s).power" % (repr(a), repr(key))), Sym("stored(%s,%s).prefix" % (repr(a), repr(key)))))
+            n = 700 + idx.index(cell)
+            d = self.decide(store, T("contains", a, key))
+            outs = []
+            if d is not False:
+                outs.append((some(Ref(0, n)), s2 if d else self.with_pc(s2, T("contains", a, key), True)))
+            if d is not True:
+                outs.append((NONE, store if d is False else self.with_pc(store, T("contains", a, key), False)))
+            return outs
+        if name.endswith("BTreeMap::<K, V, A>::contains_key") and len(vals) == 2 and isinstance(a, (Sym, T)):
+            return self.fork(store, T("contains", a, vals[1]))
+        if (name.endswith("BTreeMap::<K, V, A>::remove") or name.endswith("BTreeMap::<K, V, A>::remove_entry")) and len(vals) == 2 and isinstance(a, (Sym, T)):
+            return [(TOP, self.with_log(store, ("remove", repr(a), repr(vals[1]))))]
+        if name == "std::iter::Iterator::collect" and "BTreeMap" in (getattr(self, "cur_term", None) or {}).get("callee", {}).get("generics", ""):
+            # building a map from an iterator of entries = a fresh map + one insertion per entry, in order
+            from ..absint import stdmodels
+            src = stdmodels.to_iter(it, args[0], store)
+            if src is not None:
+                outs = []
+                for items, _, st2 in stdmodels.drive(it, src, store):
+                    n = st2.get(("newmaps",), 0)
+                    s3 = dict(st2)
+                    s3[("newmaps",)] = n + 1
+                    m = Sym("newmap%d" % n)
+                    for e in items:
+                        if isinstance(e, Agg) and len(e.fields) == 2:
+                            s3 = self.with_log(s3, ("insert", repr(m), repr(e.field(0)), e.field(1)))
+                        else:
+                            raise core.Undecided("a map is collected from entries of unknown shape: %r" % (e,))
+                    outs.append((m, s3))
+                return outs
         if name == "std::collections::BTreeMap::<K, V>::new":
             n = store.get(("newmaps",), 0)
             s2 = dict(store)
@@ -276,9 +317,10 @@ def mul_summary(facts, ea, eb):
             if a.pos < len(a.items):
                 return [(some(a.items[a.pos]), it.write_ref(store, args[0], IterV(a.items, a.pos + 1)))]
             return [(NONE, store)]
-        if name.endswith("Iterator::map") or name.endswith("::map") and "iter" in name.lower():
+        concrete = lambda v: isinstance(v, IterV) or (isinstance(v, Agg) and isinstance(v.kind, str) and v.kind.startswith("it:"))
+        if (name.endswith("Iterator::map") or name.endswith("::map") and "iter" in name.lower()) and not concrete(vals[0]):
             return [(T("map", vals[0], vals[1]), store)]
-        if name.endswith("Iterator::collect") or name.endswith("::collect"):
+        if (name.endswith("Iterator::collect") or name.endswith("::collect")) and not concrete(vals[0]):
             return [(T("collect", vals[0]), store)]
         if name.endswith("Iterator::chain") or name.endswith("::chain"):
             return [(T("chain", vals[0], vals[1]), store)]
